@@ -1570,6 +1570,28 @@ func c05Cache(c C) {
 			c.R.Check("K1", "cache/CheckAndGet/passthrough-only-for-foreign-entries", p.InstrPos(rt.Instr), ir.HasFact(fs, "!ok(typeassert*mempoolCachedTx*) || !*mempoolCachedTx*"), "passthrough only when the entry is not a mempoolCachedTx: "+res+" facts "+short(strings.Join(ir.FactStrings(fs), ";"), 200))
 		}
 	}
+	// the accessor the application uses goes through the checked getter (all implementations)
+	ngt := 0
+	for _, f := range p.Funcs {
+		if f.Name() != "GetTxFromCache" || f.Blocks == nil || f.Signature.Recv() == nil || strings.HasSuffix(p.Pos(f.Pos()), "_test.go") {
+			continue
+		}
+		if f.Pkg == nil || ir.RelPkg(f.Pkg.Pkg) != "mempool" {
+			continue // mockery-generated and hand-written test doubles (app.Mempool, consensus.MockMempool) are not the node's mempool
+		}
+		ngt++
+		okG := true
+		var rets []string
+		for _, rt := range ir.Returns(f) {
+			v := ir.Render(rt.Results[0])
+			rets = append(rets, v)
+			if !(ir.Match("mempool.txCache.CheckAndGet(*.cache,hash)", v) || v == "nil") {
+				okG = false
+			}
+		}
+		c.R.Check("K1", "cache/"+ir.FuncName(f)+"/uses-checked-getter", p.Pos(f.Pos()), okG && len(rets) > 0, fmt.Sprintf("returns cache.CheckAndGet(hash) (never the unchecked Get): %v", rets))
+	}
+	c.MustFind("K1", "cache/GetTxFromCache", cg, ngt, "GetTxFromCache implementations")
 	// every Put stores a wrapper
 	nput := 0
 	for _, f := range p.Funcs {
